@@ -131,7 +131,7 @@ def _run_case(rec, Z, vr, vc, obs, tgt, cx, cy, ydesc, kind, sample=False):
     ys = np.arange(H) * cy; xs = np.arange(W) * cx + 3.0
     if ydesc:
         ys = ys[::-1].copy()
-    r = xr.DataArray(Z.copy(), dims=['y', 'x'], coords={'y': ys, 'x': xs}, attrs={'res': (cx, cy)})
+    r = xr.DataArray(gen.rand_layout(Z.copy(), np.random.default_rng(vr * 31 + vc)), dims=['y', 'x'], coords={'y': ys, 'x': xs}, attrs={'res': (cx, cy)})
     kw = {}
     if obs != 0 or rec is None: kw['observer_elev'] = obs
     if tgt != 0: kw['target_elev'] = tgt
